@@ -38,6 +38,44 @@ func loopOf(loops []*loopInfo, b *ssa.BasicBlock) *loopInfo {
 
 func (m *Model) RunLoop(s *Sink, rule string) {
 	for _, name := range []string{"evalEachStmt", "evalForStmt"} {
+		// decided by case evaluation (rule_loopcases.go); the structural reading of the function is the diagnosis and
+		// the decision when the cases cannot be evaluated
+		sub := NewSink()
+		m.runLoopStruct(sub, rule, name)
+		cr := m.eachCases()
+		what := "@each"
+		if name == "evalForStmt" {
+			cr, what = m.forCases(), "@for"
+		}
+		switch {
+		case cr.decided && len(cr.bad) == 0:
+			s.OK(rule, what+" by cases|passes, bindings, loop object, break/continue, @else, failures", cr.pos,
+				"case evaluation of Eval on an abstract %s statement: %d scenarios (element counts, markers at different depths and passes, failing clauses); children evaluated, scopes seen by the body and text returned as specified", what, cr.cases)
+			for _, o := range sub.Obls {
+				if o.Status == Violated || o.Status == Undecided {
+					s.OK(o.Rule, o.Key, o.Pos, "the code does not have the shape this structural reading expects (%s); decided by case evaluation instead", o.Detail)
+				} else {
+					s.Obls = append(s.Obls, o)
+				}
+			}
+		case cr.decided:
+			for i, b := range cr.bad {
+				if i >= 3 {
+					break
+				}
+				s.Violation(rule, fmt.Sprintf("%s by cases|wrong loop behaviour (%d)", what, i+1), cr.pos, "evaluating an %s statement — %s (%d of %d scenarios differ)", what, b, len(cr.bad), cr.cases)
+			}
+			s.Obls = append(s.Obls, sub.Obls...)
+		default:
+			s.Note(rule, what+" by cases", cr.pos, "case evaluation not possible (%s); structural reading only", cr.why)
+			s.Obls = append(s.Obls, sub.Obls...)
+		}
+	}
+	m.checkBlockStmt(s, rule)
+}
+
+func (m *Model) runLoopStruct(s *Sink, rule string, only string) {
+	for _, name := range []string{only} {
 		fn := m.Method("evaluator", "Evaluator", name)
 		if fn == nil {
 			s.Undecided(rule, name, "-", "%s not found", name)
@@ -149,7 +187,6 @@ func (m *Model) RunLoop(s *Sink, rule string) {
 			m.checkFor(s, rule, fn, li, body, alts)
 		}
 	}
-	m.checkBlockStmt(s, rule)
 }
 
 func (m *Model) checkEach(s *Sink, rule string, fn *ssa.Function, li *loopInfo, body *ssa.Call, alts []*ssa.Call) {
